@@ -142,8 +142,11 @@ class Runner:
         s, out = self.s, self.out
         if o == "n":
             self.do_next()
-        elif o[0] == "f":
+        elif o[0] in "fg":
             k = int(o[1:])
+            if o[0] == "g":
+                import numpy
+                k = numpy.int64(k)
             try:
                 s.finalize(k)
                 r = "ok"
@@ -162,7 +165,7 @@ class Runner:
                     k -= 1
                     if k <= 0:
                         break
-        elif o[0] == "l":
+        elif o[0] in "lL":
             # the documented way of driving a schedule: `for action in schedule: ...; break` at EndReverse, k times
             k, lim = o[1:].split(":")
             k, lim = int(k), int(lim)
@@ -177,6 +180,10 @@ class Runner:
                             t = self.record(a)
                             if t == "ER":
                                 k -= 1
+                                ended = False
+                                break
+                            if t == "EF" and o[0] == "L":
+                                # L: the forward loop is a `for` loop of its own, left at EndForward; the adjoint calculation(s) follow in further loops
                                 ended = False
                                 break
                             if lim <= 0:
@@ -423,6 +430,12 @@ def run_val(ident, t, out):
         r = res(lambda: canon.i2s(bf.argmin([int(x) for x in t[1:]])))
     elif k == "pairs":
         r = res(lambda: pair_laws(int(t[1]), int(t[2])))
+        if r != "ok":
+            r = "VAL " + r
+    elif k == "collect":
+        r = res(lambda: collect_laws(int(t[1]), int(t[2])))
+        if r != "ok":
+            r = "VAL " + r
     elif k == "beta":
         r = res(lambda: num(bf.beta(int(t[1]), int(t[2]))))
     else:
@@ -469,6 +482,61 @@ def pair_laws(seed, count):
         if v:
             return v
     return "ok"
+
+
+def collect_laws(seed, count):
+    """C18 on actions that are kept: `count` pairwise different actions are constructed first and compared afterwards (with an equal
+    action built then, with their repr read back, with their neighbour), and the actions of two runs of one schedule are collected
+    and compared element by element"""
+    import random
+    rng = random.Random(seed)
+    sts = [StorageType.RAM, StorageType.DISK, StorageType.WORK, StorageType.NONE]
+    cls = {"F": cs.Forward, "R": cs.Reverse, "C": cs.Copy, "M": cs.Move}
+
+    def mk(i):
+        k = i % 4
+        a = i // 4 + rng.randint(0, 1) * 10 ** 6
+        if k == 0:
+            return ("F", a, a + 1 + rng.randint(0, 3), rng.random() < .5, rng.random() < .5, rng.choice(sts))
+        if k == 1:
+            return ("R", a + 1 + rng.randint(0, 3), a, rng.random() < .5)
+        return ("C" if k == 2 else "M", a, rng.choice(sts[:2]), rng.choice(sts))
+    tups = [mk(i) for i in range(count)]
+    acts = [cls[t[0]](*t[1:]) for t in tups]
+    for i, (t, a) in enumerate(zip(tups, acts)):
+        b = cls[t[0]](*[int(str(v)) if (isinstance(v, int) and not isinstance(v, bool)) else v for v in t[1:]])
+        try:
+            if not (a == b) or (a != b):
+                return "action %d of %d kept ones: %r == (an equal action built later) is False" % (i, count, a)
+            if i + 1 < count and (a == acts[i + 1] or not (a != acts[i + 1])):
+                return "%r == %r is True" % (a, acts[i + 1])
+        except Exception as e:  # noqa
+            return "comparing %r raised %s" % (a, type(e).__name__)
+        v = value_check(a)
+        if v:
+            return "action %d of %d kept ones: %s" % (i, count, v)
+    N = 200 + count // 10
+    with contextlib.redirect_stdout(io.StringIO()):
+        s1 = list(iter_all(cs.Revolve(N, 4)))
+        s2 = list(iter_all(cs.Revolve(N, 4)))
+    if len(s1) != len(s2):
+        return "two runs of Revolve(%d, 4) have %d and %d actions" % (N, len(s1), len(s2))
+    for i, (a, b) in enumerate(zip(s1, s2)):
+        if not (a == b) or (a != b):
+            return "action %d of two runs of Revolve(%d, 4), collected first and compared afterwards: %r == %r is False" % (i, N, a, b)
+    for i, a in enumerate(s1):
+        v = value_check(a)
+        if v:
+            return "action %d of Revolve(%d, 4), checked after the run: %s" % (i, N, v)
+    return "ok"
+
+
+def iter_all(s):
+    while True:
+        try:
+            yield next(s)
+        except StopIteration:
+            return
 
 
 def run_lines(lines):
